@@ -152,7 +152,7 @@ def check_data_consistency(pdf: pd.DataFrame,
             data[col] = data[col].astype(type_req)
 
     # Drop any columns that I do not need for processing
-    for key in data.columns:
+    for key in data.columns.unique():
         if key not in req_cols.keys():
             warnings.warn(f'Column {key} is not required by ampycloud.',
                           AmpycloudWarning)
